@@ -495,30 +495,48 @@ class SmallSet {
       _set.merge(o._set);
       return;
     }
-    bool small = isSmall();
-    for (auto oit = o._vec.begin(); oit != o._vec.end();) {
-      FindFunctor<T> fFunc(key_comp(), *oit);
-      if (small) {
-        if (std::none_of(_vec.begin(), _vec.end(), fFunc)) {
-          if (isSmallContFull()) {
-            grow();
-            small = false;
-            _set.insert(std::move(*oit));
-          } else {
-            _vec.push_back(std::move(*oit));
-          }
+    // 'o' is small: visit its elements in the order of its comparator, like std::set::merge does.
+    // The order matters when several of them are equivalent for our comparator: the first one is taken.
+    using OSet = SmallSet<T, N2, C2, Alloc, SetType2>;
+    const typename OSet::PtrVec sortedPtrs = OSet::ComputeSortedPtrVec(o._vec, o.key_comp());
+    typename OSet::PtrVec movedPtrs;
+    // moved elements are erased from 'o' at the end, from the back to keep the other pointers valid
+    auto eraseMoved = [&o, &movedPtrs]() {
+      for (auto oit = o._vec.end(); oit != o._vec.begin();) {
+        --oit;
+        if (std::find(movedPtrs.begin(), movedPtrs.end(), std::addressof(*oit)) != movedPtrs.end()) {
           oit = o._vec.erase(oit);
-        } else {
-          ++oit;
-        }
-      } else {
-        if (_set.insert(std::move(*oit)).second) {
-          oit = o._vec.erase(oit);
-        } else {
-          ++oit;
         }
       }
+    };
+    try {
+      bool small = isSmall();
+      for (const T *p : sortedPtrs) {
+        T &el = const_cast<T &>(*p);
+        bool moved;
+        if (small) {
+          moved = std::none_of(_vec.begin(), _vec.end(), FindFunctor<T>(key_comp(), el));
+          if (moved) {
+            if (isSmallContFull()) {
+              grow();
+              small = false;
+              _set.insert(std::move(el));
+            } else {
+              _vec.push_back(std::move(el));
+            }
+          }
+        } else {
+          moved = _set.insert(std::move(el)).second;
+        }
+        if (moved) {
+          movedPtrs.push_back(p);
+        }
+      }
+    } catch (...) {
+      eraseMoved();
+      throw;
     }
+    eraseMoved();
   }
 
   bool operator==(const SmallSet &o) const {
